@@ -42,9 +42,12 @@ struct Gen
         if (r.chance(0.7)) op(OP_SET_RHO, {h, rnd(5)});
         op(OP_SET_K, {h, r.chance(0.3) ? r.range(1, 3) : (r.chance(0.5) ? r.range(4, 16) : r.range(17, 64))});
     }
+    double abort_rate = 0.0; // probability that an evaluation is preceded by a cancelled one on the same workspace
     void eval(int64_t h, int checks, int ws_sel = -1, int xmode = 0, int exmode = -1)
     {
-        op(OP_EVAL, {h, rnd(1u << 30), xmode, ws_sel >= 0 ? ws_sel : rnd(5), exmode >= 0 ? exmode : rnd(6), rnd(1u << 30), rnd(3), r.chance(0.75) ? 1 : 0, checks});
+        int64_t a0 = rnd(1u << 30), a1 = ws_sel >= 0 ? ws_sel : rnd(5), a2 = exmode >= 0 ? exmode : rnd(6), a3 = rnd(1u << 30), a4 = rnd(3), a5 = r.chance(0.75) ? 1 : 0;
+        int64_t af = r.chance(abort_rate) ? 1 + rnd(3) : 0, ac = rnd(1u << 20);
+        op(OP_EVAL, {h, a0, xmode, a1, a2, a3, a4, a5, checks, af, ac});
     }
 };
 
@@ -63,13 +66,15 @@ inline Plan gen_plan(uint64_t seed, uint64_t index, Tier tier, int profile, bool
     case P_C07:
     {
         g.max_N = 6;
+        g.abort_rate = r.chance(0.5) ? 0.3 : 0.0;
         int mask = -1;
         if (thorough && index < 4096) mask = (int)(index % 256); // every flag combination at least once per universe share
         g.configure(0, true, mask);
         int evals = (int)r.range(1, 3);
         for (int e = 0; e < evals; ++e)
         {
-            if (e > 0 && r.chance(0.5)) { if (r.chance(0.5)) g.op(OP_SET_FLAGS, {0, g.rnd(256)}); else g.configure(0, r.chance(0.3)); }
+            if (e > 0 && r.chance(0.5)) { if (r.chance(0.5)) g.op(OP_SET_FLAGS, {0, g.rnd(256)}); else { bool mm = r.chance(0.3); g.configure(0, mm); } }
+            if (r.chance(0.2)) { int kind = r.chance(0.5) ? OP_COPY : OP_ASSIGN; int64_t xs = g.rnd(1u << 30); g.op(kind, {0, 1, xs}); g.eval(1, CHK_TWIN | CHK_FD); }
             g.eval(0, CHK_TWIN | CHK_FD);
         }
         if (r.chance(0.25))
@@ -86,7 +91,9 @@ inline Plan gen_plan(uint64_t seed, uint64_t index, Tier tier, int profile, bool
         int evals = (int)r.range(1, 4);
         for (int e = 0; e < evals; ++e)
         {
-            if (e > 0 && r.chance(0.4)) g.configure(r.chance(0.8) ? 0 : 1, r.chance(0.3));
+            if (e > 0 && r.chance(0.4)) { int64_t hh = r.chance(0.8) ? 0 : 1; bool mm = r.chance(0.3); g.configure(hh, mm); }
+            // every way of obtaining a configured optimizer, including copies of one
+            if (r.chance(0.25)) { int64_t dst = 1 + g.rnd(2); int kind = r.chance(0.5) ? OP_COPY : OP_ASSIGN; int64_t xs = g.rnd(1u << 30); g.op(kind, {0, dst, xs}); g.eval(dst, CHK_TWIN | CHK_TRACE); }
             g.eval(0, CHK_TWIN | CHK_TRACE);
         }
         break;
@@ -116,12 +123,13 @@ inline Plan gen_plan(uint64_t seed, uint64_t index, Tier tier, int profile, bool
             if (u < 0.12) g.op(OP_SET_FLAGS, {g.rnd(3), g.rnd(256)});
             else if (u < 0.2) g.op(OP_SET_SMAP, {g.rnd(3), g.rnd(3)});
             else if (u < 0.25) g.op(OP_SET_TMAP, {g.rnd(3), g.rnd(3)});
-            else if (u < 0.33) g.set_init(g.rnd(3), g.pick_N());
+            else if (u < 0.33) { int64_t hh = g.rnd(3); int64_t nn = g.pick_N(); g.set_init(hh, nn); }
             else if (u < 0.38) g.op(OP_COPY, {g.rnd(3), g.rnd(3), g.rnd(1u << 30)});
             else if (u < 0.43) g.op(OP_ASSIGN, {g.rnd(3), g.rnd(3), g.rnd(1u << 30)});
-            else if (u < 0.58) g.op(OP_GET_DIM, {g.rnd(3)});
+            else if (u < 0.50) g.op(OP_MUTATE_USER_MAP, {g.rnd(2), 2, g.rnd(5)});
+            else if (u < 0.60) g.op(OP_GET_DIM, {g.rnd(3)});
             else if (u < 0.75) g.op(OP_INIT_GUESS, {g.rnd(3)});
-            else g.eval(g.rnd(3), CHK_EXPOSED | (r.chance(0.3) ? CHK_TWIN : 0), 4, r.chance(0.8) ? 1 : 0, 0);
+            else { int64_t hh = g.rnd(3); int chk = CHK_EXPOSED | (r.chance(0.3) ? CHK_TWIN : 0); int xm = r.chance(0.8) ? 1 : 0; g.eval(hh, chk, 4, xm, 0); }
         }
         g.op(OP_GET_DIM, {0});
         g.op(OP_INIT_GUESS, {0});
@@ -131,23 +139,25 @@ inline Plan gen_plan(uint64_t seed, uint64_t index, Tier tier, int profile, bool
     case P_C10:
     {
         g.max_N = 10;
+        g.abort_rate = r.chance(0.5) ? 0.3 : 0.0;
         g.configure(0, true);
         if (r.chance(0.8)) { g.op(OP_CONSTRUCT, {1, g.rnd(3), g.rnd(5), g.rnd(5), g.rnd(4)}); g.configure(1, true); }
         int n = (int)r.range(3, thorough ? 14 : 9);
         for (int q = 0; q < n; ++q)
         {
             double u = r.unit();
-            if (u < 0.15) g.set_init(g.rnd(2), r.chance(0.3) ? r.range(1, 2) : g.pick_N());
+            if (u < 0.15) { int64_t hh = g.rnd(2); int64_t nn = r.chance(0.3) ? r.range(1, 2) : g.pick_N(); g.set_init(hh, nn); }
             else if (u < 0.22) g.op(OP_SET_FLAGS, {g.rnd(2), g.rnd(256)});
             else if (u < 0.3) g.op(OP_WS_COPY, {g.rnd(3), g.rnd(3), g.rnd(2)});
             else if (u < 0.35) g.op(OP_SET_K, {g.rnd(2), r.range(1, 64)});
-            else g.eval(g.rnd(2), CHK_TWIN, (int)r.range(1, 4)); // veteran workspaces (and the built-in one)
+            else { int64_t hh = g.rnd(2); int wsel = (int)r.range(1, 4); g.eval(hh, CHK_TWIN, wsel); } // veteran workspaces (and the built-in one)
         }
         break;
     }
     case P_C12:
     {
         g.max_N = 6;
+        g.abort_rate = r.chance(0.4) ? 0.25 : 0.0;
         // thorough tier: every order in which one thread can process the segments, for N = 1..5 (1+2+6+24+120 = 153
         // permutations), each on a fresh random problem/configuration; the block repeats so that every order/dimension
         // universe sees every permutation several times
@@ -170,7 +180,7 @@ inline Plan gen_plan(uint64_t seed, uint64_t index, Tier tier, int profile, bool
         for (int q = 0; q < n; ++q)
         {
             double u = r.unit();
-            if (u < 0.55) g.op(OP_CONCURRENT, {0, g.rnd(3), r.chance(0.6) ? 1 : 0, g.rnd(1u << 30), 0});
+            if (u < 0.55) g.op(OP_CONCURRENT, {0, g.rnd(3), r.chance(0.6) ? 1 : 0, g.rnd(1u << 30), 0, r.chance(0.3) ? 1 : 0});
             else if (u < 0.85) g.eval(0, CHK_TWIN, -1, 0, (int)r.range(1, 5));
             else g.configure(0, r.chance(0.5));
         }
@@ -189,11 +199,11 @@ inline Plan gen_plan(uint64_t seed, uint64_t index, Tier tier, int profile, bool
             else if (u < 0.38) g.op(OP_ASSIGN, {g.rnd(3), g.rnd(3), g.rnd(1u << 30)});
             else if (u < 0.43) g.op(OP_SELF_ASSIGN, {g.rnd(3)});
             else if (u < 0.53) g.op(OP_DESTROY, {g.rnd(3)});
-            else if (u < 0.6) g.op(OP_MUTATE_USER_MAP, {g.rnd(2), g.rnd(2), g.rnd(6)});
+            else if (u < 0.6) g.op(OP_MUTATE_USER_MAP, {g.rnd(2), g.rnd(3), g.rnd(6)});
             else if (u < 0.68) { int64_t k = g.rnd(3); g.op(OP_CONSTRUCT, {k, g.rnd(3), g.rnd(5), g.rnd(5), g.rnd(4)}); g.configure(k, true); }
             else if (u < 0.74) g.configure(g.rnd(3), true); // source mutation
             else if (u < 0.84) g.op(OP_CONCURRENT, {g.rnd(3), g.rnd(3), g.rnd(2), g.rnd(1u << 30), 1 + g.rnd(2)});
-            else g.eval(g.rnd(3), CHK_TWIN, r.chance(0.5) ? 4 : -1);
+            else { int64_t hh = g.rnd(3); int wsel = r.chance(0.5) ? 4 : -1; g.eval(hh, CHK_TWIN, wsel); }
         }
         break;
     }
@@ -209,7 +219,7 @@ inline Plan gen_plan(uint64_t seed, uint64_t index, Tier tier, int profile, bool
             int64_t hsel = r.chance(0.8) ? 0 : g.rnd(3);
             if (q == 0 && first_bad >= 0) g.set_init(0, r.range(1, 3), first_bad);
             else if (u < 0.3) g.set_init(hsel, g.pick_N());
-            else if (u < 0.75) g.set_init(hsel, g.pick_N(), 1 + (int)g.rnd(BAD_N - 1));
+            else if (u < 0.75) { int64_t nn = g.pick_N(); int bk = 1 + (int)g.rnd(BAD_N - 1); g.set_init(hsel, nn, bk); }
             else if (u < 0.85) g.op(OP_VALIDITY, {hsel});
             else if (u < 0.9) g.op(OP_COPY, {g.rnd(3), g.rnd(3), g.rnd(1u << 30)});
             else if (u < 0.95) g.op(OP_SET_FLAGS, {hsel, g.rnd(256)});
